@@ -6,7 +6,7 @@ import os
 
 from ..loader import ht, core, jsx_mod
 from ..ref import jsexpr
-from ..mon.purity import fp
+from ..mon.purity import fp, ids
 from .. import gen
 
 ID = "C20"
@@ -58,6 +58,11 @@ class Counter:
 # ------------------------------------------------------------------ recipes
 def rand_prop(rng, cnt, depth, nested=False):
     k = rng.choice(["none", "bool", "int", "float", "str", "str", "list", "tuple", "dict", "expr", "tag", "comp", "tfprop", "exprplus"])
+    if k in ("int", "float", "str", "list", "tuple", "dict", "expr") and rng.random() < 0.12:
+        r_ = rand_prop(rng, cnt, depth, nested)
+        if r_["p"] in ("num", "str", "list", "tuple", "dict", "expr"):
+            r_["sub"] = True
+        return r_
     if nested and k == "tfprop":
         k = "str"   # (only a prop VALUE that is a tagifiable is expanded; one buried in a list or dict is outside the statement)
     if depth <= 0 and k in ("tag", "comp", "list", "tuple", "dict"):
@@ -97,6 +102,9 @@ def rand_dep(rng, cnt):
     if rng.random() < 0.35:
         # the same library in several places / in two versions
         return {"k": "dep", "name": rng.choice(["shared", "lib2"]), "version": rng.choice(["1.0", "2.0"]), "script": [{"src": "x.js"}]}
+    if rng.random() < 0.08:
+        # a user dependency that happens to carry the name of a packaged library: it is surfaced like any other, next to the packaged one
+        return {"k": "dep", "name": rng.choice(["react", "react-dom"]), "version": rng.choice(["0.1", "99.0"]), "script": [{"src": "own-build.js"}]}
     return {"k": "dep", "name": "dep%d" % cnt.next(), "version": "1.0", "script": [{"src": "x.js"}]}
 
 
@@ -157,20 +165,50 @@ def rand_tag(rng, cnt, depth, allow_tf=True):
 
 
 # ------------------------------------------------------------------ builder
+class _ListSub(list):
+    pass
+
+
+class _TupleSub(tuple):
+    pass
+
+
+class _IntSub(int):
+    pass
+
+
+class _FloatSub(float):
+    pass
+
+
+class _JsxSub(jsx_mod.jsx):
+    pass
+
+
+class _StrSub(str):
+    pass
+
+
 def build_prop(p):
+    """Values of a subclass of a supported type (OrderedDict, named-tuple-like, int/float/str/jsx subclasses) are written like the base type."""
     k = p["p"]
+    sub = p.get("sub")
     if k == "none":
         return None
     if k in ("bool", "num", "str"):
-        return p["v"]
+        v = p["v"]
+        if sub and type(v) in (int, float, str):
+            return {int: _IntSub, float: _FloatSub, str: _StrSub}[type(v)](v)
+        return v
     if k == "list":
-        return [build_prop(x) for x in p["v"]]
+        return (_ListSub if sub else list)(build_prop(x) for x in p["v"])
     if k == "tuple":
-        return tuple(build_prop(x) for x in p["v"])
+        return (_TupleSub if sub else tuple)(build_prop(x) for x in p["v"])
     if k == "dict":
-        return {kk: build_prop(v) for kk, v in p["v"]}
+        import collections as _co
+        return (_co.OrderedDict if sub else dict)((kk, build_prop(v)) for kk, v in p["v"])
     if k == "expr":
-        return jsx_mod.jsx(p["v"])
+        return (_JsxSub if sub else jsx_mod.jsx)(p["v"])
     if k == "exprplus":
         return jsx_mod.jsx(p["v"]) + (jsx_mod.jsx(p["tail"]) if p["jsx_tail"] else p["tail"])
     return build(p["v"])
@@ -325,6 +363,11 @@ def metadata_of(r, out):
     return out
 
 
+def _packaged(d):
+    """The react / react-dom dependency the library itself ships (a user's dependency may carry the same name)."""
+    return d.name in ("react", "react-dom") and isinstance(d.source, dict) and d.source.get("package") == "htmltools" and d.source.get("subdir") == "lib/" + d.name
+
+
 # ------------------------------------------------------------------ one case
 def extract_js(script_tag):
     html = [c for c in script_tag.children if isinstance(c, ht.HTML)]
@@ -340,6 +383,7 @@ def check_case(ctx, r, n_conv=2):
     wit = {"component": r}
     comp = build(r)
     before = fp(comp)
+    before_ids = ids(comp)
     results = []
     ops = ["tagify", "str", "tagify", "repr", "_repr_html_"][:n_conv]
     for op in ops:
@@ -347,6 +391,10 @@ def check_case(ctx, r, n_conv=2):
         res = comp.tagify() if op == "tagify" else str(comp) if op == "str" else repr(comp) if op == "repr" else comp._repr_html_()
         if fp(comp) != before:
             ctx.violation("jsx-tagify-mutates-component", "%s() changed the component (or something reachable from it)" % op, dict(wit, op=op))
+            return False
+        if ids(comp) != before_ids:
+            # the very same tag / component / dependency objects are still where the caller put them (not equal copies)
+            ctx.violation("jsx-tagify-mutates-component", "%s() replaced objects reachable from the component by other objects" % op, dict(wit, op=op))
             return False
         results.append((op, res))
     tags = [res for op, res in results if op == "tagify"]
@@ -362,7 +410,9 @@ def check_case(ctx, r, n_conv=2):
     if type(t) is not ht.Tag or t.name != "script":
         ctx.violation("jsx-result-not-script", "tagify() returned %r" % (t,), wit)
         return False
-    deps = [c for c in t.children if isinstance(c, ht.HTMLDependency)]
+    all_deps = [c for c in t.children if isinstance(c, ht.HTMLDependency)]
+    deps = [d for d in all_deps if _packaged(d)]
+    user_deps = [d for d in all_deps if not _packaged(d)]
     metas = [c for c in t.children if isinstance(c, ht.MetadataNode) and not isinstance(c, ht.HTMLDependency)]
     names = [d.name for d in deps]
     for lib in ("react", "react-dom"):
@@ -383,7 +433,7 @@ def check_case(ctx, r, n_conv=2):
         d_.source = {"href": "https://cdn.example/" + lib}
     t_next = comp.tagify()
     for lib in ("react", "react-dom"):
-        nd = [c for c in t_next.children if isinstance(c, ht.HTMLDependency) and c.name == lib]
+        nd = [c for c in t_next.children if isinstance(c, ht.HTMLDependency) and c.name == lib and _packaged(c)]
         if len(nd) != 1 or fp(nd[0]) != pristine[lib]:
             ctx.violation("jsx-result-shares-state", "changing the %s dependency of one conversion result shows up in the next conversion" % lib, wit)
             return False
@@ -398,7 +448,7 @@ def check_case(ctx, r, n_conv=2):
     if s_comp != s_tag:
         ctx.violation("jsx-str-differs-from-tagify", "in JSON dependency mode str(component) differs from str(component.tagify())", wit)
         return False
-    got_meta = sorted([n for n in names if n not in ("react", "react-dom")] + ["<meta>"] * len(metas))
+    got_meta = sorted([d.name for d in user_deps] + ["<meta>"] * len(metas))
     want_meta = sorted(metadata_of(r, []))
     ctx.count("oracle.metadata")
     if got_meta != want_meta:
@@ -519,7 +569,7 @@ def check_reconvert(ctx, r, rng):
     if tree != want:
         ctx.violation("jsx-stale-after-mutation", "after %s the expression does not mirror the changed component: %s" % (log, _first_diff(tree, want)), dict(wit, js=js[:1200]))
         return False
-    got_meta = sorted([d.name for d in t.children if isinstance(d, ht.HTMLDependency) and d.name not in ("react", "react-dom")]
+    got_meta = sorted([d.name for d in t.children if isinstance(d, ht.HTMLDependency) and not _packaged(d)]
                       + ["<meta>"] * sum(1 for c in t.children if isinstance(c, ht.MetadataNode) and not isinstance(c, ht.HTMLDependency)))
     if got_meta != sorted(metadata_of(r, [])):
         ctx.violation("jsx-stale-after-mutation", "after %s the surfaced metadata %r is not that of the changed component" % (log, got_meta), wit)
